@@ -54,8 +54,7 @@ func (rs *runState) judge(prop string, clientFinished bool, out *core.Outcome) {
 	// observed on the environment's side: the TNC reported the end of a link
 	// before the Dial call that was setting it up had returned.
 	tag := reg.tag()
-	backlog := p.TNC.Has(func(e ardoptnc.Ev) bool { return e.Kind == "arq" && e.Rep > 4096 })
-	if backlog {
+	if p.TNC.Has(func(e ardoptnc.Ev) bool { return e.Kind == "arq" && e.Rep > 4096 }) {
 		sim.Probe("arq-run-longer-than-the-receive-queue")
 	}
 	for _, cr := range conns {
@@ -369,11 +368,11 @@ func (rs *runState) judge(prop string, clientFinished bool, out *core.Outcome) {
 			sim.Probe("reader-still-pausing-at-end-of-run")
 			continue // it was not waiting for data: what it has not read yet is not missing
 		}
-		if len(cr.Got) < len(s.min) && p.Mode == "tcp" && backlog && mc.EndCause == "remote" {
+		if len(cr.Got) < len(s.min) && p.Mode == "tcp" && len(frames) > 4096 && mc.EndCause == "remote" {
 			// what was read is a prefix of the stream and the link was ended by
 			// the remote side while the library's control loop stood behind its
 			// full receive queue
-			sim.Violate(prop, "read-stream", "tail-lost-at-remote-disconnect-behind-full-queue/"+tag, "connection %d (%s): Read returned %d bytes (reader end: %q) of the %d bytes of ARQ payload the TNC had delivered on the data socket before it announced the end of the link on the control socket; more than 4096 frames were unread at some point", cr.Idx, cr.Via, len(cr.Got), cr.ReadErr, len(s.min))
+			sim.Violate(prop, "read-stream", "tail-lost-at-remote-disconnect-behind-full-queue/"+tag, "connection %d (%s): Read returned %d bytes (reader end: %q) of the %d bytes of ARQ payload the TNC had delivered on the data socket before it announced the end of the link on the control socket; the connection carried more than 4096 frames (%d)", cr.Idx, cr.Via, len(cr.Got), cr.ReadErr, len(s.min), len(frames))
 			continue
 		}
 		if len(cr.Got) < len(s.min) {
